@@ -133,6 +133,31 @@ Proof.
   cbn [fst snd]. exists (o_pairs o). split; [exact (proj1 Hio)|reflexivity].
 Qed.
 
+(* the max-distance double loop asks for distance(begin[i], begin[j]) for exactly the pairs i < j *)
+Lemma max_loop_calls_length range :
+  2 * length (max_loop_calls range) = length range * (length range - 1).
+Proof.
+  induction range as [|a t IH]; [reflexivity|].
+  cbn [max_loop_calls length]. rewrite app_length, map_length.
+  destruct t as [|b t']; [reflexivity|]. cbn [length] in *. nia.
+Qed.
+
+Lemma max_loop_calls_In : forall range a b,
+  In (a, b) (max_loop_calls range) <->
+  exists i j, i < j /\ j < length range /\ a = at_pos range i /\ b = at_pos range j.
+Proof.
+  unfold at_pos. induction range as [|x t IH]; intros a b; cbn [max_loop_calls length].
+  - split; [intros []|intros [i [j [_ [H _]]]]; lia].
+  - rewrite in_app_iff, in_map_iff, IH. split.
+    + intros [[y [E Hy]]|[i [j [Hij [Hj [Ea Eb]]]]]].
+      * inversion E; subst. destruct (In_nth _ _ 0 Hy) as [j [Hj Ej]].
+        exists 0, (S j). cbn [nth]. repeat split; lia.
+      * exists (S i), (S j). cbn [nth]. repeat split; try lia; assumption.
+    + intros [i [j [Hij [Hj [Ea Eb]]]]]. destruct j as [|j]; [lia|]. destruct i as [|i]; cbn [nth] in Ea, Eb.
+      * left. exists b. split; [subst; reflexivity|]. subst b. apply nth_In. lia.
+      * right. exists i, j. repeat split; try lia; assumption.
+Qed.
+
 Section Des.
   Context {F : Type} {Fo : FieldOps F} {Ff : IsField F}.
   Add Field SpeDesField : (@Fth F Fo Ff).
@@ -306,7 +331,12 @@ Section Des.
         (fa_rounds inv logdet fuel n D d eps X A sig).
   Proof.
     induction fuel as [|fuel IH]; intros A sig; [reflexivity|].
-    cbn [fa_observe fa_rounds map fst]. f_equal. apply IH.
+    cbn [fa_rounds map fst].
+    change (fa_observe inv (S fuel) n D d eps X A sig) with
+      ((mtab n d (fun i c => sumn D (fun t => X t i * fa_next_A inv n D d X A sig t c)),
+        mtab D D (fa_invC inv D d A sig), fa_quad inv n D d X A sig)
+         :: fa_observe inv fuel n D d eps X (fa_next_A inv n D d X A sig) (fa_next_sig inv n D d eps X A sig)).
+    cbn [map fst]. f_equal. apply IH.
   Qed.
 
   (* ---------------- SPE: the run depends on the data through designated distances only ---------------- *)
